@@ -1186,3 +1186,90 @@ Proof.
     destruct Hy as [Hy|Hy]; [left|right; exact Hy].
     eapply Permutation_in; [apply Permutation_sym; exact HC|]. apply in_or_app. left. exact Hy.
 Qed.
+
+(* --- the pruned unfolding stops after at most [length SE] levels (pigeonhole on declared ids) --- *)
+Definition declared (SE : senv) (T : Z) : bool := match senv_get SE T with Some _ => true | None => false end.
+
+Lemma declared_In SE T : declared SE T = true -> In T (map fst SE).
+Proof.
+  unfold declared. induction SE as [|[i fs] SE IH]; cbn [senv_get map fst]; [discriminate|].
+  destruct (Z.eqb_spec i T); [left; assumption|]. intros H. right. apply IH. exact H.
+Qed.
+Lemma undeclared_fields SE T : declared SE T = false -> fields_of SE T = [].
+Proof. unfold declared, fields_of. destruct (senv_get SE T); [discriminate|reflexivity]. Qed.
+
+Lemma flat_map_nil {X Y} (g : X -> list Y) l : (forall x, In x l -> g x = []) -> flat_map g l = [].
+Proof.
+  induction l as [|x l IH]; intros H; [reflexivity|]. cbn [flat_map]. rewrite (H x (or_introl eq_refl)), IH; [reflexivity|].
+  intros y Hy. apply H. right. exact Hy.
+Qed.
+
+Definition witness (SE : senv) (d : nat) (Q : list path) (V : list Z) : Prop :=
+  Q <> [] -> exists W, NoDup W /\ incl W V /\ (forall T, In T W -> declared SE T = true) /\ (d <= length W)%nat.
+
+Lemma witness_bound SE W : NoDup W -> (forall T, In T W -> declared SE T = true) -> (length W <= length SE)%nat.
+Proof.
+  intros Hnd Hd. rewrite <- (map_length fst SE). apply NoDup_incl_length; [exact Hnd|].
+  intros T HT. apply declared_In. apply Hd. exact HT.
+Qed.
+
+Lemma witness_fresh_undeclared SE d Q V p :
+  witness SE d Q V -> (length SE <= d)%nat -> In p (filter (freshb V) Q) -> declared SE (snd p) = false.
+Proof.
+  intros HW Hd Hp. apply filter_In in Hp. destruct Hp as [Hq Hf].
+  destruct (declared SE (snd p)) eqn:E; [|reflexivity]. exfalso.
+  destruct HW as (W & Hnd & Hincl & Hdec & Hlen); [intros ->; contradiction|].
+  unfold freshb in Hf. apply negb_true_iff, memZ_false in Hf.
+  assert (Hb : (length (snd p :: W) <= length SE)%nat).
+  { apply witness_bound.
+    - constructor; [|exact Hnd]. intros H. apply Hf. apply Hincl. exact H.
+    - intros T [<-|HT]; auto. }
+  cbn [length] in Hb. lia.
+Qed.
+
+Lemma pruned_empty SE f d Q V : witness SE d Q V -> (length SE <= d)%nat -> pruned f SE Q V = [].
+Proof.
+  intros HW Hd. destruct f as [|f]; [reflexivity|]. cbn [pruned].
+  assert (Hc : flat_map (cands SE) (filter (freshb V) Q) = []).
+  { apply flat_map_nil. intros p Hp. unfold cands.
+    rewrite (undeclared_fields _ _ (witness_fresh_undeclared _ _ _ _ _ HW Hd Hp)). reflexivity. }
+  assert (He : flat_map (embeds SE) (filter (freshb V) Q) = []).
+  { apply flat_map_nil. intros p Hp. unfold embeds.
+    rewrite (undeclared_fields _ _ (witness_fresh_undeclared _ _ _ _ _ HW Hd Hp)). reflexivity. }
+  rewrite Hc, He. apply pruned_nil.
+Qed.
+
+Lemma witness_step SE d Q V :
+  witness SE d Q V -> witness SE (S d) (flat_map (embeds SE) (filter (freshb V) Q)) (map snd Q ++ V).
+Proof.
+  intros HW Hne.
+  assert (Hex : exists p, In p (filter (freshb V) Q) /\ embeds SE p <> []).
+  { clear HW. induction (filter (freshb V) Q) as [|p l IH]; [contradiction Hne; reflexivity|].
+    cbn [flat_map] in Hne. destruct (embeds SE p) eqn:E.
+    - destruct IH as (q & Hq & Hq'); [exact Hne|]. exists q. split; [right; exact Hq|exact Hq'].
+    - exists p. split; [left; reflexivity|]. rewrite E. discriminate. }
+  destruct Hex as (p & Hp & Hemb). apply filter_In in Hp. destruct Hp as [Hq Hf].
+  assert (Hdec : declared SE (snd p) = true).
+  { destruct (declared SE (snd p)) eqn:E; [reflexivity|]. exfalso. apply Hemb. unfold embeds.
+    rewrite (undeclared_fields _ _ E). reflexivity. }
+  destruct HW as (W & Hnd & Hincl & HdecW & Hlen); [intros ->; contradiction|].
+  unfold freshb in Hf. apply negb_true_iff, memZ_false in Hf.
+  exists (snd p :: W). split; [|split; [|split]].
+  - constructor; [|exact Hnd]. intros H. apply Hf. apply Hincl. exact H.
+  - intros T [<-|HT]; apply in_or_app; [left; apply in_map; exact Hq|right; apply Hincl; exact HT].
+  - intros T [<-|HT]; auto.
+  - cbn [length]. lia.
+Qed.
+
+Lemma pruned_stable SE : forall f1 f2 d Q V, witness SE d Q V ->
+  (length SE - d <= f1)%nat -> (length SE - d <= f2)%nat -> pruned f1 SE Q V = pruned f2 SE Q V.
+Proof.
+  induction f1 as [|f1 IH]; intros f2 d Q V HW H1 H2.
+  - rewrite (pruned_empty SE f2 d Q V HW); [reflexivity|lia].
+  - destruct f2 as [|f2].
+    + rewrite (pruned_empty SE (S f1) d Q V HW); [reflexivity|lia].
+    + cbn [pruned]. f_equal. apply (IH f2 (S d)); [apply witness_step; exact HW|lia|lia].
+Qed.
+
+Lemma witness_root SE id : witness SE 0 [([], id)] [].
+Proof. intros _. exists []. split; [constructor|]. split; [intros ? []|]. split; [intros ? []|cbn; lia]. Qed.
